@@ -53,7 +53,7 @@ func runC12(p *Program, e *Engine, r *Result, tier string) {
 	}
 	c04Replace(a, tf, ro.API["AddWith"], "C12.6")
 	for _, root := range roots {
-		c12Release(a, tf, root)
+		c12Release(a, tf, root, "C12.2")
 		pairTables(a, tf, root, "C12.3")
 		c12PathStores(a, tf, root, "C12.3")
 		c12FdOrigin(a, root)
@@ -104,7 +104,7 @@ func c12Acquire(a *An, tf *tableFacts, addWith *ssa.Function) {
 	}
 }
 
-func c12Release(a *An, tf *tableFacts, root *ssa.Function) {
+func c12Release(a *An, tf *tableFacts, root *ssa.Function, rule string) {
 	w := a.walk(root)
 	ops := collectTableOps(a, tf, w)
 	rms := syscallVisits(a, w, "InotifyRmWatch")
@@ -115,7 +115,7 @@ func c12Release(a *An, tf *tableFacts, root *ssa.Function) {
 		key := sprintf("%s:release(%s)", shortFn(root), tail(stripCallArgs(op.Key), 70))
 		gone, _ := op.V.Cond.everyConj(func(c Conj) bool { return kernelGone(a, c) })
 		if gone {
-			a.R.ob("C12.2", key, "a descriptor leaves the wd table only when the kernel dropped the watch itself or together with inotify_rm_watch on it", a.P.instrPos(op.V.Instr), true,
+			a.R.ob(rule, key, "a descriptor leaves the wd table only when the kernel dropped the watch itself or together with inotify_rm_watch on it", a.P.instrPos(op.V.Instr), true,
 				"kernel-says-gone context (IN_IGNORED / IN_UNMOUNT / IN_DELETE_SELF of this record)")
 			continue
 		}
@@ -171,7 +171,7 @@ func c12Release(a *An, tf *tableFacts, root *ssa.Function) {
 		if how == "" {
 			how = "no inotify_rm_watch for this descriptor in this calling context, and not a kernel-says-gone context: " + stripIDs(op.V.Cond.String())
 		}
-		a.R.ob("C12.2", key, "a descriptor leaves the wd table only when the kernel dropped the watch itself or together with inotify_rm_watch on it", a.P.instrPos(op.V.Instr), ok, how)
+		a.R.ob(rule, key, "a descriptor leaves the wd table only when the kernel dropped the watch itself or together with inotify_rm_watch on it", a.P.instrPos(op.V.Instr), ok, how)
 	}
 	// converse: every inotify_rm_watch is tied to a table removal in the same calling context
 	seen := map[string]bool{}
@@ -201,7 +201,7 @@ func c12Release(a *An, tf *tableFacts, root *ssa.Function) {
 			continue // every site is judged; sites that hold are reported once per key
 		}
 		seen[key] = true
-		a.R.ob("C12.2", key, "inotify_rm_watch is issued only for a descriptor whose entry was just taken out of the tables", a.P.instrPos(call), ok, how)
+		a.R.ob(rule, key, "inotify_rm_watch is issued only for a descriptor whose entry was just taken out of the tables", a.P.instrPos(call), ok, how)
 	}
 }
 
